@@ -12,12 +12,13 @@ type RateEv struct {
 }
 
 // RateExcess evaluates the token-bucket bound over ALL intervals exactly:
-// sum(n_i..n_j) <= rate*1.01*(t_j - t_i) + burst for all i <= j (running-minimum formulation).
+// sum(n_i..n_j) <= 1.01*(rate*(t_j - t_i) + burst) for all i <= j (running-minimum formulation).
 // It returns the worst excess (<= 0 means the bound holds), the event at which it occurs and the
 // length of the offending interval.
 func RateExcess(evs []RateEv, rate float64, burst float64) (excess float64, at RateEv, span time.Duration) {
 	sort.SliceStable(evs, func(a, b int) bool { return evs[a].T < evs[b].T })
 	rp := rate * 1.01
+	burst *= 1.01 // "within the limiter's 1% granularity" (its tokens arrive in quanta at tick boundaries)
 	var cum float64
 	minv := 0.0
 	minT := time.Duration(0)
